@@ -31,7 +31,9 @@ const CALLNAMES: &[&str] = &["m", "mymac", "util_1", "_m", "doit", "M2", "größ
 const MVARS: &[&str] = &["v", "mv", "i", "n1", "_x", "lib", "Dsn", "é", "тест", "calc_rolling_std_for_all_numeric"];
 const OPEN_KW: &[&str] = &["data", "set", "run", "proc", "if", "then", "else", "do", "end", "by", "where", "select", "from", "output", "keep", "format", "input", "put", "length", "_null_", "and", "or", "not", "in", "eq", "ne"];
 const OPEN_SYM: &[&str] = &["=", "+", "-", "/", "<", ">", "<=", ">=", "^=", "~=", "||", "|", "!!", ",", ".", ":", "@", "#", "?", "**", "<>", "><", "=*", "{", "}", "[", "]", "&", "&&", "%", "$", "¬", "¬=", "!", "¦", "¦¦", "∘", "^"];
-const WORDS: &[&str] = &["a", "abc", "x1", "some", "text", "v_1", "é", "data", "q2"];
+// (the last words start with letters whose code point ends in the byte of an ASCII delimiter: U+0128 ( U+0129 ) U+012C ,
+// U+012F / U+013B ; U+013D = U+0127 quote U+0125 percent U+0126 ampersand - a `char as u8` comparison would take them for it)
+const WORDS: &[&str] = &["a", "abc", "x1", "some", "text", "v_1", "é", "data", "q2", "\u{128}a", "\u{129}", "\u{12c}b", "\u{12f}c", "\u{13b}d", "\u{13d}x", "\u{127}q", "\u{125}m", "\u{126}v", "\u{428}\u{430}\u{433}"];
 
 impl<'a> G<'a> {
     pub fn new(data: &'a [u8]) -> G<'a> { G { u: Src::new(data), out: String::new(), marks: vec![], dels: vec![], anchors: vec![], depth: 0, feats: vec![], in_macro: 0, str_regions: vec![], last_int: false, max_depth: 0, open_parens: 0, open_calls: 0, open_text: 0, force_nonword: false, lenient: false, in_stmt_expr: false, trunc_points: vec![] } }
